@@ -19,8 +19,8 @@ Asgs(cls) == IF Cardinality(DOMAIN Schema[cls]) <= 4
 Kw(cls) == Singles(cls)
 
 SimpleVals ==
-    [Tags |-> {"none", "one", "two"}, MeasurementData |-> {"none", "obj", "text", "emptyobj", "list"}, UserData |-> {"none", "obj", "text"},
-     LayoutData |-> {"none", "obj", "text"}, Gateway |-> {"v4", "v6", "v4mac"}, PathInfo |-> {"path", "asym", "graph"},
+    [Tags |-> {"none", "one", "two"}, MeasurementData |-> {"none", "obj", "text", "emptyobj", "list", "zero", "fzero", "false", "emptylist"},
+     UserData |-> {"none", "obj", "text", "zero", "false", "emptylist"}, LayoutData |-> {"none", "obj", "text", "zero", "emptylist"}, Gateway |-> {"v4", "v6", "v4mac"}, PathInfo |-> {"path", "asym", "graph"},
      ERO |-> {"path_strict", "path_loose", "graph_strict"}, Label |-> {"plain", "colon"}, Capacity |-> {"plain"},
      LocationTuple |-> {"plain", "colon"}, AllocationConstraint |-> {"plain"}]
 
@@ -31,6 +31,7 @@ Pure == UNION {{[op |-> "RoundTrip", cls |-> c, asg |-> a] : a \in Asgs(c)} : c 
 MaintOps == {[op |-> "MNew"], [op |-> "MFinalize"], [op |-> "MToJson"], [op |-> "MIter"], [op |-> "MReload"], [op |-> "MCopy"]}
        \cup {[op |-> n, name |-> x, state |-> s] : n \in {"MAdd"}, x \in {"w1", "w2"}, s \in {"Maint", "PreMaint"}}
        \cup {[op |-> n, name |-> x] : n \in {"MRem", "MPop"}, x \in {"w1", "w2"}}
+       \cup {[op |-> "MCopyEdit", add |-> a, rem |-> r] : a \in {"w1", "zz"}, r \in {"w2", "none"}}
 
 Init == st = EmptyMaint /\ lastop = [op |-> "Init"] /\ path = <<>> /\ chg = FALSE
 Next == \E o \in (IF path = <<>> THEN Pure ELSE {}) \cup MaintOps :
